@@ -525,10 +525,16 @@ def check_ciq(idx: ProgramIndex, rep: Report):
     except Exception:
         pass
     rets = [n for n in walk_body(fn) if isinstance(n, ast.Return) and isinstance(n.value, ast.Tuple)]
-    if len(rets) != 1:
-        raise AnalysisError("contour_integral_quad: expected one tuple return")
-    ret_names = [e.id if isinstance(e, ast.Name) else None for e in rets[0].value.elts]
-    arity = len(ret_names)
+    if not rets or len({len(r.value.elts) for r in rets}) != 1:
+        raise AnalysisError("contour_integral_quad: expected tuple returns of one arity")
+    arity = len(rets[0].value.elts)
+    roles = _CiqRoles(fn)
+    ROLE_ORDER = ["shifted", "weights", "unshifted", "shifts"]
+    ret_roles = [[sorted(roles.of(e, roles.rd.node_of(r))) for e in r.value.elts] for r in rets]
+    # the role every position has on every return (None where the returns disagree or the role is not recovered)
+    ret_names = [(ret_roles[0][i][0] if all(len(rr[i]) == 1 and rr[i] == ret_roles[0][i] for rr in ret_roles) else None)
+                 for i in range(arity)]
+    rep.analysed["ciq_return_roles"] = ret_roles
 
     # ---- Q1
     rep.rule("C11.Q1", "consumers unpack the producer's tuple by position; weights multiply the shifted solves", floor=3)
@@ -552,7 +558,7 @@ def check_ciq(idx: ProgramIndex, rep: Report):
                                           f.loc(st)))
                 continue
             # uses of weights: (X * weights) / X.mul(weights) -> X must derive from position 0
-            wname = names[ret_names.index("weights")] if "weights" in ret_names else None
+            wname = names[ROLE_ORDER.index("weights")] if arity == len(ROLE_ORDER) else None
             deps = dependence(f)
             bad = None
             n_prod = 0
@@ -605,10 +611,12 @@ def check_ciq(idx: ProgramIndex, rep: Report):
                 rep.ok("C11.Q1", sample)
     if n_sites < 2:
         rep.error(f"only {n_sites} contour_integral_quad call sites found (expected >= 2)")
-    if ret_names[:4] != ["solves", "weights", "no_shift_solves", "shifts"]:
-        rep.bad("C11.Q1", Finding(PROP, "C11.Q1", F, "return order " + norm(rets[0]),
-                                  f"contour_integral_quad returns {ret_names}; every consumer unpacks (solves, weights, "
-                                  "no_shift_solves, shifts) by position", fn.loc(rets[0])))
+    if any(not rr[i] or "?" in rr[i] for rr in ret_roles for i in range(arity)):
+        raise AnalysisError(f"contour_integral_quad: the role of a returned value was not recovered ({ret_roles})")
+    if ret_names[:4] != ROLE_ORDER:
+        rep.bad("C11.Q1", Finding(PROP, "C11.Q1", F, "return order " + " / ".join("+".join(x) for x in ret_roles[0]),
+                                  f"contour_integral_quad returns (by what each position is computed from) {ret_roles}; every "
+                                  "consumer unpacks (shifted solves, weights, un-shifted solve, shifts) by position", fn.loc(rets[0])))
     else:
         rep.ok("C11.Q1", {"producer_returns": ret_names})
 
@@ -641,17 +649,8 @@ def check_ciq(idx: ProgramIndex, rep: Report):
             if isinstance(sl, ast.Slice) and rn:
                 lo = sl.lower.value if isinstance(sl.lower, ast.Constant) else (0 if sl.lower is None else None)
                 fills[rn] = lo if (lo is not None and sl.upper is None) else "[" + norm(sl) + "]"
-    split_lo = None
-    noshift_idx = None
-    for st in walk_body(fn):
-        if isinstance(st, ast.Assign) and isinstance(st.value, ast.Subscript) and root_name(st.value) == "solves":
-            sl = st.value.slice
-            if isinstance(sl, ast.Slice) and isinstance(sl.lower, ast.Constant) and sl.upper is None:
-                split_lo = sl.lower.value
-            elif isinstance(sl, ast.Slice):
-                split_lo = "[" + norm(sl) + "]"
-            elif isinstance(sl, ast.Constant):
-                noshift_idx = sl.value
+    split_lo = roles.split_lo
+    noshift_idx = roles.noshift_idx
     # local aliases of the quadrature size (N = num_contour_quadrature)
     aliases = {st.targets[0].id for st in walk_body(fn) if isinstance(st, ast.Assign) and isinstance(st.targets[0], ast.Name)
                and isinstance(st.value, ast.Name) and st.value.id == N}
@@ -681,8 +680,22 @@ def check_ciq(idx: ProgramIndex, rep: Report):
             o = offset2(st.value.args[0])
             if o is not None:
                 alloc[st.targets[0].id] = o
-    ws = {k: v for k, v in alloc.items() if "weight" in k}
-    ss = {k: v for k, v in alloc.items() if "shift" in k}
+    # the weight table has one row per quadrature node, the shift table has the extra leading row(s) of the un-shifted solve;
+    # a view of a table belongs to the table it is a view of
+    view_root: Dict[str, str] = {}
+    for st in walk_body(fn):
+        if isinstance(st, ast.Assign) and isinstance(st.targets[0], ast.Name) and isinstance(st.value, ast.Call) \
+                and isinstance(st.value.func, ast.Attribute) and st.value.func.attr in ("view", "reshape"):
+            view_root["view:" + st.targets[0].id] = root_name(st.value.func.value) or ""
+    tables = {k: v for k, v in alloc.items() if not k.startswith("view:")}
+    if len(set(alloc.values())) < 2:
+        raise AnalysisError(f"contour_integral_quad: cannot recover the shift / weight tables (alloc={alloc})")
+    lo_rows = min(alloc.values())
+    wtab = {k for k, v in tables.items() if v == lo_rows}
+    stab = {k for k, v in tables.items() if v != lo_rows}
+    ws = {k: v for k, v in alloc.items() if k in wtab or view_root.get(k) in wtab
+          or (k.startswith("view:") and view_root.get(k) not in stab and v == lo_rows)}
+    ss = {k: v for k, v in alloc.items() if k not in ws}
     if not ws or not ss or split_lo is None or noshift_idx is None:
         raise AnalysisError(f"contour_integral_quad: cannot recover the offset table (alloc={alloc}, fills={fills}, split={split_lo}, noshift={noshift_idx})")
     if len(set(ss.values())) != 1 or len(set(ws.values())) != 1:
@@ -705,9 +718,9 @@ def check_ciq(idx: ProgramIndex, rep: Report):
     # ---- Q3 inverse flag
     rep.rule("C11.Q3", "the `inverse` flag controls the extra multiplication by K", floor=1)
     cfg = CFG(fn)
-    mm = [n for n in cfg.stmt_nodes() if n.kind == "stmt" and isinstance(n.ast, ast.Assign) and root_name(n.ast.targets[0]) == "solves"
+    mm = [n for n in cfg.stmt_nodes() if n.kind == "stmt" and isinstance(n.ast, (ast.Assign, ast.Return))
           and any(isinstance(x, ast.Call) and isinstance(x.func, ast.Attribute) and x.func.attr in ("_matmul", "matmul") and
-                  any(root_name(a) == "solves" for a in x.args) for x in ast.walk(n.ast.value))]
+                  any(roles.of(a, roles.rd.node_of(n.ast)) & {"shifted", "all"} for a in x.args) for x in ast.walk(n.ast.value or ast.Constant(value=None)))]
     if not mm:
         rep.bad("C11.Q3", Finding(PROP, "C11.Q3", F, "no K-multiplication of the solves",
                                   "contour_integral_quad(inverse=False) must multiply the shifted solves by K to obtain K^{1/2} b; "
@@ -751,6 +764,110 @@ def check_ciq(idx: ProgramIndex, rep: Report):
         rep.bad("C11.Q4", Finding(PROP, "C11.Q4", F, "fallback for non-positive eigenvalue estimates",
                                   "the Lanczos eigenvalue estimate is not tested for non-positive values inside a try whose handler "
                                   "installs the diagonal fallback: sqrt of a negative minimum gives NaN quadrature nodes", fn.loc()))
+
+
+class _CiqRoles:
+    """What a value of contour_integral_quad is computed from, by reaching definitions: the shifted block of the minres result
+    (``X[k:]``, possibly multiplied by K), its un-shifted row (``X[c]``), the weight table (the ``weights`` parameter / the table
+    with one row per quadrature node) or the shift table (the ``shifts`` parameter / the table with the extra leading rows)."""
+
+    N = "num_contour_quadrature"
+
+    def __init__(self, fn: FunctionInfo):
+        from ..deps import ReachingDefs
+
+        self.fn = fn
+        self.rd = ReachingDefs(fn)
+        self.params = set(fn.params())
+        self.split_lo = None
+        self.noshift_idx = None
+        self.n_alias = {st.targets[0].id for st in walk_body(fn) if isinstance(st, ast.Assign) and isinstance(st.targets[0], ast.Name)
+                        and isinstance(st.value, ast.Name) and st.value.id == self.N}
+        rows = []
+        for st in walk_body(fn):
+            if isinstance(st, ast.Assign) and isinstance(st.value, ast.Call) and dotted(st.value.func) in ("torch.zeros", "torch.empty") \
+                    and st.value.args:
+                o = self._offset(st.value.args[0])
+                if o is not None:
+                    rows.append(o)
+            if isinstance(st, ast.Assign) and isinstance(st.value, ast.Call) and isinstance(st.value.func, ast.Attribute) \
+                    and st.value.func.attr in ("view", "reshape") and st.value.args:
+                o = self._offset(st.value.args[0])
+                if o is not None:
+                    rows.append(o)
+        self.min_rows = min(rows) if len(set(rows)) > 1 else None
+
+    def _offset(self, e: ast.AST) -> Optional[int]:
+        names = {self.N} | self.n_alias
+        if isinstance(e, ast.Name) and e.id in names:
+            return 0
+        if isinstance(e, ast.BinOp) and isinstance(e.op, ast.Add):
+            for a_, b_ in ((e.left, e.right), (e.right, e.left)):
+                if isinstance(a_, ast.Name) and a_.id in names and isinstance(b_, ast.Constant) and isinstance(b_.value, int):
+                    return b_.value
+        return None
+
+    @staticmethod
+    def _bindings(stmt: ast.AST, name: str) -> Optional[List[ast.AST]]:
+        """The expressions ``name`` is bound to by the statement (None: not a plain binding of the name)."""
+        if isinstance(stmt, ast.For):
+            return [stmt.iter] if any(isinstance(x, ast.Name) and x.id == name for x in ast.walk(stmt.target)) else None
+        if not isinstance(stmt, ast.Assign):
+            return None
+        out: List[ast.AST] = []
+        for t in stmt.targets:
+            if isinstance(t, ast.Name) and t.id == name:
+                out.append(stmt.value)
+            elif isinstance(t, (ast.Tuple, ast.List)) and any(isinstance(x, ast.Name) and x.id == name for x in ast.walk(t)):
+                v = stmt.value
+                if isinstance(v, (ast.Tuple, ast.List)) and len(v.elts) == len(t.elts) and not any(
+                        isinstance(x, ast.Starred) for x in list(t.elts) + list(v.elts)):
+                    out += [b for a, b in zip(t.elts, v.elts) if any(isinstance(x, ast.Name) and x.id == name for x in ast.walk(a))]
+                else:
+                    out.append(v)
+        return out or None
+
+    def of(self, e: ast.AST, nid: Optional[int], depth: int = 0) -> Set[str]:
+        if nid is None or depth > 10 or e is None:
+            return set()
+        if isinstance(e, ast.Call) and (dotted(e.func) or "").split(".")[-1] == "minres":
+            return {"all"}
+        if isinstance(e, ast.Call) and dotted(e.func) in ("torch.zeros", "torch.empty") and e.args:
+            o = self._offset(e.args[0])
+            if o is not None and self.min_rows is not None:
+                return {"weights"} if o == self.min_rows else {"shifts"}
+        if isinstance(e, ast.Call) and isinstance(e.func, ast.Attribute) and e.func.attr in ("view", "reshape") and e.args \
+                and self._offset(e.args[0]) is not None and self.min_rows is not None:
+            return {"weights"} if self._offset(e.args[0]) == self.min_rows else {"shifts"}
+        if isinstance(e, ast.Subscript) and "all" in self.of(e.value, nid, depth + 1):
+            sl = e.slice.elts[0] if isinstance(e.slice, ast.Tuple) and e.slice.elts else e.slice
+            if isinstance(sl, ast.Slice) and sl.upper is None and sl.step is None:
+                lo = sl.lower.value if isinstance(sl.lower, ast.Constant) else (0 if sl.lower is None else "[" + norm(sl) + "]")
+                self.split_lo = lo
+                return {"shifted"}
+            if isinstance(sl, ast.Slice):
+                self.split_lo = "[" + norm(sl) + "]"
+                return {"shifted"}
+            if isinstance(sl, ast.Constant) and isinstance(sl.value, int):
+                self.noshift_idx = sl.value
+                return {"unshifted"}
+            return {"?"}
+        if isinstance(e, ast.Name):
+            out: Set[str] = set()
+            if e.id in self.params and e.id in ("weights", "shifts"):
+                out.add(e.id)
+            for d, _i in self.rd.IN.get(nid, {}).get(e.id, ()):
+                stmt = self.rd.cfg.nodes[d].ast
+                vals = self._bindings(stmt, e.id)
+                for v in vals or []:
+                    out |= self.of(v, d, depth + 1)
+            return out
+        out = set()
+        for x in ast.iter_child_nodes(e):
+            if isinstance(x, (ast.expr, ast.comprehension, ast.keyword)):
+                out |= self.of(x, nid, depth + 1) if isinstance(x, ast.expr) else set().union(
+                    *[self.of(y, nid, depth + 1) for y in ast.iter_child_nodes(x) if isinstance(y, ast.expr)] or [set()])
+        return out
 
 
 def _saved_names(f: FunctionInfo) -> Set[str]:
